@@ -688,6 +688,10 @@ func typeFrame(c *Ctx, rule, pkg string, typeNames []string, modelled map[string
 		if !touches {
 			continue
 		}
+		if isResetOnly(c, fi) {
+			c.R.Held(rule, fi.Name, "read-only", c.pos(fi), "only empties the container (truncation to a prefix, nil, or the list's Init): what remains keeps its order")
+			continue
+		}
 		es := c.An.FuncEffects(fi.SSA)
 		var writes []string
 		if es.all {
@@ -703,4 +707,48 @@ func typeFrame(c *Ctx, rule, pkg string, typeNames []string, modelled map[string
 			o.Breaks = "an accessor, formatter or helper that reorders, truncates or overwrites the container breaks the order and content the modelled operations maintain"
 		}
 	}
+}
+
+// isResetOnly: a Clear/Reset/Truncate-style addition: on every path the only effects are stores to the receiver
+// itself of nil, the zero value or a prefix re-slice of its own current contents ((*s)[:k]), and calls of Init or Len
+// on a list field of the receiver. Dropping elements from the removal end, or all of them, cannot reorder what
+// stays.
+func isResetOnly(c *Ctx, fi *FuncInfo) bool {
+	sig := fi.Obj.Type().(*types.Signature)
+	if sig.Recv() == nil || len(fi.Closures) > 0 {
+		return false
+	}
+	fp := c.An.PathsOf(fi.SSA)
+	if fp.Unproven != "" || len(fp.Paths) == 0 {
+		return false
+	}
+	recv := paramOf(fi, 0)
+	any := false
+	for _, p := range fp.Paths {
+		for i := range p.Events {
+			e := &p.Events[i]
+			switch {
+			case e.Kind == "store" && e.Addr.Op == "alloc":
+			case e.Kind == "store" && e.Addr.Key() == recv.Key():
+				v := e.Val
+				ok := v.IsNil() || v.Op == "zero"
+				if v.Op == "slice" && len(v.Args) >= 1 && v.Args[0].Op == "load" && v.Args[0].Args[0].Key() == recv.Key() {
+					// (*s)[lo:hi]: a prefix when lo is absent or 0
+					ok = len(v.Args) < 2 || v.Args[1] == nil || v.Args[1] == noneTerm || v.Args[1].IsConst("0")
+				}
+				if !ok {
+					return false
+				}
+				any = true
+			case e.Kind == "call" && (e.Name == "builtin.len" || e.Name == "builtin.cap"):
+			case e.Kind == "call" && (strings.HasSuffix(e.Name, "(*List).Init") || strings.HasSuffix(e.Name, "(*List).Len")) && len(e.Args) >= 1 && e.Args[0].Op == "faddr" && e.Args[0].Args[0].Key() == recv.Key():
+				if strings.HasSuffix(e.Name, ".Init") {
+					any = true
+				}
+			default:
+				return false
+			}
+		}
+	}
+	return any
 }
